@@ -159,7 +159,9 @@ type script struct {
 }
 
 func genPayload(t *rapid.T) []byte {
-	switch rapid.IntRange(0, 7).Draw(t, "pk") {
+	switch rapid.IntRange(0, 8).Draw(t, "pk") {
+	case 8:
+		return nil // io.Writer callers may pass a nil slice: an empty write like any other
 	case 0:
 		return []byte{}
 	case 1:
